@@ -12,8 +12,7 @@ NEW_STATE = [
     " uto_apply_block(ite(prev == ZERO32, EMPTY_UTXO, self.unspent_transaction_outs_by_hash[prev]), block))",
     "implies(prev != ZERO32, result.block_by_height_by_hash == self.block_by_height_by_hash.set(h,"
     " self.block_by_height_by_hash[prev].set(block.header.summary.height, block)))",
-    "implies(prev == ZERO32, h in result.block_by_height_by_hash and 0 in result.block_by_height_by_hash[h]"
-    " and result.block_by_height_by_hash[h][0] == block)",
+    "implies(prev == ZERO32, h in result.block_by_height_by_hash and result.block_by_height_by_hash[h] == EMPTY_MAP.set(0, block))",
     "result.heads == self.heads.delete(prev).set(h, block)",
     # fork choice as the statement has it: the head changes only for the first block, for a child of the head, or for
     # a block with strictly more total work (height) than the head
@@ -27,6 +26,7 @@ NEW_STATE = [
 @ST.contract("skepticoin.coinstate.CoinState.add_block_no_validation", props=["C01", "C02", "C03", "C04"])
 def _(c):
     c.summary("apply_block")
+    c.predicate("applies", ["self", "block"])
     c.let(h="block.hash()", prev="block.header.summary.previous_block_hash")
     # no precondition: on a state that lacks the parent's entries the function raises KeyError (a rejection)
     c.ensures(*NEW_STATE)
